@@ -11,6 +11,7 @@ import PrologVerif.Driver.C19
 import PrologVerif.Driver.C07
 import PrologVerif.Driver.C12
 import PrologVerif.Driver.C15
+import PrologVerif.Driver.C16
 open PrologVerif PrologVerif.Driver
 
 def handlers : List (String × Handler) :=
@@ -36,7 +37,8 @@ def handlers : List (String × Handler) :=
     ("c12.inter", C12.interHandler),
     ("c15.args", C15.argsHandler),
     ("c15.scan", C15.scanHandler),
-    ("c15.ops", C15.opsHandler) ]
+    ("c15.ops", C15.opsHandler),
+    ("c16.rel", C16.handler) ]
 
 partial def loop (h : IO.FS.Stream) (out : IO.FS.Stream) (f : Handler) : IO Unit := do
   let line ← h.getLine
